@@ -4,7 +4,7 @@ KANI = "Kani 0.68 function contracts / loop-free full-domain harnesses over CBMC
 
 ENGINES = [
     {"name": "kani-contracts", "path": "/verif/tools/run_check.py",
-     "serves_properties": ["C01", "C08", "C09", "C11", "C12", "C13", "C14", "C15", "C17", "C22", "C23", "C24", "C29", "C30", "C31", "C36"],
+     "serves_properties": ["C01", "C08", "C09", "C11", "C12", "C13", "C14", "C15", "C17", "C22", "C23", "C24", "C29", "C30", "C31", "C33", "C36"],
      "kind_free_text": KANI},
     {"name": "verus+kani", "path": "/verif/tools/extract.py",
      "serves_properties": ["C02", "C16"],
@@ -146,6 +146,13 @@ CLAIMED = {
         "text": "SHELL QUOTING OF SAVED ARGUMENTS ONLY, BOUNDED by argument length - file copying, response-file contents, linker-script rewriting, thin archives and byte-identical outputs are not decided. For every argument and every copied input file name of 1, 2 or 3 ASCII bytes (5 in the thorough tier) CBMC proves on the extracted code that what wild writes into the run-with script is read back by sh as exactly one literal word with the original bytes - no word splitting, expansion, globbing, command separator or redirection - and that response-file text, which wild reads itself, is written byte for byte. The escaping is byte-local, so short arguments exercise every byte and every adjacent pair; arbitrary lengths are not proved. One defect was found and repaired (only blank, $ and backslash were escaped, copied file names not at all).",
         "note": "Trusted: the hand transcription of POSIX sh quoting/token recognition restricted to backslash escapes and single quotes (every other shell-special byte counts as breaking the word). Not covered: bytes >= 0x80 (written through unchanged), the script's own unquoted $D / $OUT expansions (a save directory whose path contains blanks), empty arguments (std::path::absolute rejects them: the save fails with an error), arguments inside response files (re-read by wild's own tokenizer, which splits on blanks).",
     },
+    "C33": {
+        "category": "other",
+        "design_ref": "DESIGN.md section 6, C33",
+        "technique": "Kani bounded harnesses on SymbolDb::{apply_wrapped_symbol_overrides, override_name, get_unversioned} extracted mechanically from symbol_db.rs on every run (Route S) over stand-in types (association-list HashMap, byte-sum hash, plain concatenation for format!), for concrete wrapped names with a symbolic choice of which names are registered",
+        "text": "NAME-TABLE KERNEL ONLY, BOUNDED - that references are bound through this table, that definitions and references inside the defining object bypass it, archives and shared libraries, and the undefined-__wrap_S diagnostic are not decided. References are bound by looking names up in SymbolDb's name table; --wrap works by rewriting that table before resolution. For the wrapped names foo (and foo, bar) and every choice of which of S, __wrap_S, __real_S and an unrelated name are registered, CBMC proves on the extracted code that afterwards a lookup of S finds what __wrap_S named, a lookup of __real_S finds what S named BEFORE the call (the original, not the wrapper), and __wrap_S and unrelated names find what they found before; without --wrap nothing changes.",
+        "note": "The hash table, the hash function, the arena allocator and format! are stand-ins (listed as assumptions): on the real crate the obligation does not get past CBMC's function-pointer removal. When no __wrap_S is registered wild leaves S alone where GNU ld reports __wrap_S undefined: recorded, not claimed.",
+    },
     "C31": {
         "category": "proof",
         "design_ref": "DESIGN.md section 6, C31",
@@ -156,7 +163,7 @@ CLAIMED = {
 }
 
 # properties whose check has run green on the unchanged tree (only these are claimed)
-READY = {"C01", "C02", "C09", "C12", "C13", "C14", "C16", "C17", "C08", "C11", "C15", "C22", "C23", "C24", "C29", "C30", "C31", "C36"}
+READY = {"C01", "C02", "C09", "C12", "C13", "C14", "C16", "C17", "C08", "C11", "C15", "C22", "C23", "C24", "C29", "C30", "C31", "C33", "C36"}
 
 PENDING = {
     pid: "check under construction in this session (planned claim, see DESIGN.md section 6); not claimed until its obligations run green"
@@ -179,7 +186,6 @@ NOT_APPLICABLE = {
     "C27": "relational property of two whole links",
     "C28": "relational property of whole links under different options",
     "C32": "find_match runs over hashbrown tables keyed by whole symbol names (foldhash over a symbolic-length name), glob::Pattern and C++ demangling; the rest is table emission over Layout",
-    "C33": "apply_wrapped_symbol_overrides mutates the bucketed SymbolDb (hashbrown); not constructible under either verifier",
     "C34": "a whole-tool property over parsed binaries and a disassembler (iced-x86)",
     "C35": "pipe/semaphore state across processes and Drop order; OS semantics",
     "C37": "whole-output statement over Layout and input ordering across parallel loaders",
